@@ -143,6 +143,8 @@ def cases(tier, seed, spec):
     yield from repeated_exh(tier, seed)
     yield from gen.repeated(seed, 16 if tier == 'quick' else 400)
     yield from gen.biglat(tier, quick_sizes=(14,))
+    # 8 200 - 33 000 properties over a handful of objects (tiny lattice): thresholds on the property axis
+    yield from gen.giant(seed, 1 if tier == 'quick' else 4, only='wide')
     yield from gen.ctx_stream(tier, seed)
 
 
